@@ -169,6 +169,95 @@ Proof.
     apply in_combine_l in Hin. rewrite Forall_forall in Hp. simpl. rewrite map_length. auto.
 Qed.
 
+(* ---------- closed forms: the scores in terms of the sequence ---------- *)
+
+(* the cells a window starting at position i selects: row j of the matrix at the symbol
+   s[i+j] (the wildcard K-1 past the end of the sequence) *)
+Definition window_cells {A} (d : A) (K : nat) (sq : list nat) (rows : list (list A)) (i : nat) : list A :=
+  map (fun jr => nth (nth (i + fst jr) sq (K - 1)) (snd jr) d) (combine (seq 0 (length rows)) rows).
+
+(* ScoringMatrix::score_position: left-to-right f32 sum from +0.0 (the value property C01
+   speaks of); DiscreteMatrix::score_position / every u8 kernel: saturating sum *)
+Definition score_def (K : nat) (sq : list nat) (pssm : list (list F32.t)) (i : nat) : F32.t :=
+  fold_left F32.add (window_cells F32.zero K sq pssm i) F32.zero.
+Definition dscore_def (K : nat) (sq : list nat) (ddata : list (list nat)) (i : nat) : nat :=
+  fold_left sat_add (window_cells 0 K sq ddata i) 0.
+
+Lemma nth_skipn {A} (d : A) : forall n (l : list A) r, nth r (skipn n l) d = nth (n + r) l d.
+Proof.
+  induction n as [|n IH]; intros l r; simpl; auto.
+  destruct l as [|a l]; simpl; auto. destruct r; reflexivity.
+Qed.
+
+(* cell (r, c) of the striped matrix (sequence rows and wrap rows alike) holds symbol
+   number c*R + r of the sequence, the wildcard past its end *)
+Lemma smatrix_cell K C sq wrap r c :
+  r < seq_rows C (length sq) + wrap -> c < C ->
+  exists row, nth_error (smatrix K C sq wrap) r = Some row /\
+              nth_error row c = Some (nth (c * seq_rows C (length sq) + r) sq (K - 1)).
+Proof.
+  intros Hr Hc. unfold smatrix. rewrite nth_error_map, nth_error_seq by auto. simpl.
+  eexists. split; [reflexivity|].
+  rewrite !nth_error_map, nth_error_seq by auto. simpl. f_equal. apply nth_skipn.
+Qed.
+
+Lemma seq_index_spec K C sq wrap idx :
+  idx < seq_rows C (length sq) * C ->
+  seq_index (smatrix K C sq wrap) wrap idx = Ok (nth idx sq (K - 1)).
+Proof.
+  intros Hi. unfold seq_index. rewrite smatrix_length.
+  replace (seq_rows C (length sq) + wrap - wrap) with (seq_rows C (length sq)) by lia.
+  remember (seq_rows C (length sq)) as R eqn:ER.
+  destruct R as [|y]; [simpl in Hi; lia|].
+  cbv zeta.
+  change (fst (Nat.divmod idx y 0 y)) with (idx / S y).
+  change (y - snd (Nat.divmod idx y 0 y)) with (idx mod S y).
+  assert (Hm : idx mod S y < S y) by (apply Nat.mod_upper_bound; lia).
+  assert (Hd : idx / S y < C) by (apply idx_col_lt; exact Hi).
+  destruct (smatrix_cell K C sq wrap (idx mod S y) (idx / S y)) as (row & E & Ec); auto.
+  { rewrite <- ER. lia. }
+  rewrite E, Ec. rewrite <- ER. f_equal. f_equal. symmetry. apply idx_decomp. lia.
+Qed.
+
+Lemma score_pos_from_spec K C sq wrap pos :
+  1 <= K -> 1 <= C -> Forall (fun s => s < K) sq ->
+  forall rows j acc,
+    Forall (fun row : list F32.t => K <= length row) rows ->
+    j + length rows + pos <= length sq ->
+    score_pos_from (smatrix K C sq wrap) wrap rows pos j acc =
+    Ok (fold_left F32.add
+          (map (fun jr => nth (nth (pos + fst jr) sq (K - 1)) (snd jr) F32.zero)
+               (combine (seq j (length rows)) rows)) acc).
+Proof.
+  intros HK HC Hs. induction rows as [|prow rest IH]; intros j acc Hr Hb; simpl; [reflexivity|].
+  inversion Hr as [|? ? Hp Hrest]; subst. simpl in Hb.
+  rewrite seq_index_spec by (pose proof (seq_rows_cover C (length sq) HC); lia). simpl.
+  assert (Hsym : nth (j + pos) sq (K - 1) < K) by (apply Forall_nth_default; auto; lia).
+  rewrite (nth_error_nth' prow F32.zero) by lia.
+  rewrite IH by (auto; lia). rewrite (Nat.add_comm pos j). reflexivity.
+Qed.
+
+Lemma dcell_from_spec K C sq wrap c r0 :
+  1 <= K -> Forall (fun s => s < K) sq -> c < C ->
+  forall drows j acc,
+    Forall (fun d : list nat => K <= length d) drows ->
+    r0 + j + length drows <= seq_rows C (length sq) + wrap ->
+    dcell_from (smatrix K C sq wrap) drows (r0 + j) c acc =
+    Ok (fold_left sat_add
+          (map (fun jr => nth (nth (c * seq_rows C (length sq) + r0 + fst jr) sq (K - 1)) (snd jr) 0)
+               (combine (seq j (length drows)) drows)) acc).
+Proof.
+  intros HK Hs Hc. induction drows as [|d rest IH]; intros j acc Hd Hb; simpl; [reflexivity|].
+  inversion Hd as [|? ? Hd1 Hd2]; subst. simpl in Hb.
+  destruct (smatrix_cell K C sq wrap (r0 + j) c) as (row & E & Ec); auto; [lia|].
+  rewrite E, Ec.
+  assert (Hsym : nth (c * seq_rows C (length sq) + (r0 + j)) sq (K - 1) < K)
+    by (apply Forall_nth_default; auto; lia).
+  rewrite (nth_error_nth' d 0) by lia.
+  replace (S (r0 + j)) with (r0 + S j) by lia.
+  rewrite IH by (auto; lia). rewrite Nat.add_assoc. reflexivity.
+Qed.
+
 (* ---------- the environment built by Scanner::new ---------- *)
 
 (* well-formed input: C >= 1 columns, K >= 1 symbols, a non-empty motif whose rows have at
@@ -312,6 +401,45 @@ Section Env.
       destruct ((L <? length (d_data (ce_dm v))) || (e <=? a)) eqn:Ecnd.
       + f_equal. symmetry. now apply Hempty.
       + rewrite Hbody, Hfull by auto. reflexivity.
+  Qed.
+
+  (* closed forms of the two scores the scanner compares: the f32 score of position i is
+     the left-to-right sum of the matrix cells selected by the symbols s[i..i+M), and the
+     byte score of cell c*R + r is the saturating sum of the discretised cells selected by
+     s[c*R+r .. c*R+r+M) (wildcard past the end of the sequence) *)
+  Lemma env_cscore_spec i : i < ce_Lm v -> cscore v i = score_def K sq pssm i.
+  Proof.
+    intros Hi. unfold cscore.
+    destruct Hwf as (HK & HC & HM & Hw & Hp & Hs).
+    destruct env_fields as (_ & Hps & _ & Hwr & Hsm & _ & Hpt & _).
+    unfold ce_score_position. rewrite Hpt, Hsm, Hwr, Hps, tab_get_map.
+    unfold c_score_position. rewrite (score_pos_from_spec K C sq wrap i HK HC Hs); auto.
+    rewrite env_Lm in Hi. unfold M, L in *. simpl. lia.
+  Qed.
+
+  Lemma env_cdscore_spec r c :
+    r < R -> c < C -> cdscore v (c * R + r) = dscore_def K sq (d_data (ce_dm v)) (c * R + r).
+  Proof.
+    intros Hr Hc. unfold cdscore. rewrite env_R, idx_mod, idx_div by auto.
+    destruct Hwf as (HK & HC & HM & Hw & Hp & Hs).
+    destruct env_fields as (_ & _ & _ & _ & Hsm & Hd & _).
+    destruct (to_discrete_shape K pssm (ce_dm v) Hd) as (Hlen & Hfa).
+    assert (Hb : r + 0 + length (d_data (ce_dm v)) <= seq_rows C (length sq) + wrap).
+    { rewrite Hlen. fold L R M. unfold M in *. lia. }
+    rewrite Hsm. replace r with (r + 0) at 1 by lia.
+    rewrite (dcell_from_spec K C sq wrap c r HK Hs Hc (d_data (ce_dm v)) 0 0 (Hfa Hp) Hb).
+    simpl. unfold dscore_def, window_cells. fold L R. reflexivity.
+  Qed.
+
+  Lemma env_cdscore_spec_i i :
+    i < ce_Lm v -> cdscore v i = dscore_def K sq (d_data (ce_dm v)) i.
+  Proof.
+    intros Hi. pose proof env_Lm_le as Hle. rewrite env_R in Hle.
+    destruct env_fields as (Hc & _). rewrite Hc in Hle.
+    assert (HR : 0 < R) by (destruct R; simpl in *; lia).
+    rewrite (idx_decomp R i HR). apply env_cdscore_spec.
+    - now apply idx_row_lt.
+    - apply idx_col_lt. lia.
   Qed.
 
   (* the brute-force score list printed next to the implementation's is the list of cscore *)
